@@ -96,6 +96,23 @@ def tree_root_line(out):
     return None
 
 
+def tree_file_rows(out):
+    """(meta, name) of every regular-file row of a cbi-tree listing (directory and link rows dropped),
+    as a sorted list."""
+    import re
+
+    rows = []
+    for l in out.split("\n"):
+        m = re.match(r"^(\[[^\]]*\])\s+[|\\ ]*[-o]*\s*(.*)$", l)
+        if not m or l.startswith("[Platforms"):
+            continue
+        name = m.group(2).strip()
+        if not name or name.endswith("/") or " -> " in name:
+            continue
+        rows.append([m.group(1), name])
+    return sorted(rows)
+
+
 def execute(case, scratch):
     world, sched = case["world"], case["schedule"]
     stats = {"faults": {}, "probes": {}, "cli_runs": 0, "variants": 0}
@@ -188,7 +205,24 @@ def execute(case, scratch):
                 c = runners.run_fresh("cli_run", {"top": t_, "cwd": r_, "module": "codebasin",
                                                   "argv": ["-R", "summary", "-R", "duplicates", af]})
                 t = runners.run_fresh("cli_run", {"top": t_, "cwd": r_, "module": "codebasin.tree", "argv": [af]})
-                stats["cli_runs"] += 2
+                cov = None
+                if w_["platforms"]:
+                    cj = os.path.join(t_, "cov.json")
+                    cv = runners.run_fresh("cli_run", {"top": t_, "cwd": r_, "module": "codebasin.coverage",
+                                                       "argv": ["compute", "-S", r_, "-o", cj,
+                                                                os.path.join(t_, w_["platforms"][0]["db"])], "keep": []})
+                    if cv["rc"] == 0 and os.path.exists(cj):
+                        import json as _json
+
+                        with open(cj) as fh:
+                            ents = _json.load(fh)
+                        os.unlink(cj)
+                        # entries of regular files only (a link to a member may be listed, it adds no file)
+                        cov = sorted([e["file"], e["id"], sorted(e["used_lines"]), sorted(e["unused_lines"])]
+                                     for e in ents if not os.path.islink(os.path.join(r_, e["file"])))
+                    else:
+                        cov = {"rc": cv["rc"]}
+                stats["cli_runs"] += 3
                 head, groups = c14.split_codebasin(c["out"])
                 # the warnings part of the output names paths as spelled; compare from the summary on
                 i = head.find("Summary")
@@ -197,7 +231,8 @@ def execute(case, scratch):
                 same_bytes = all(W.file_text(world, p) == W.file_text(cw, p) for p in cw["files"])
                 outs.append({"rc": c["rc"], "summary": head[i:] if i >= 0 else head,
                              "dups": sorted(sorted(g) for g in groups) if same_bytes else None, "tree_rc": t["rc"],
-                             "tree_root": tree_root_line(t["out"])})
+                             "tree_root": tree_root_line(t["out"]), "tree_files": tree_file_rows(t["out"]),
+                             "coverage": cov if same_bytes else None})
             if outs[0] != outs[1]:
                 k = next(k for k in outs[0] if outs[0][k] != outs[1][k])
                 return viol("front_end_output_differs." + k, {"canonical": outs[0][k], "aliased": outs[1][k]})
